@@ -302,7 +302,7 @@ func TestGuaranteedInvalidEdits(t *testing.T) {
 		if len(sites) == 0 || len(insertSites) == 0 {
 			return
 		}
-		kind := rapid.SampledFrom([]string{"E1-insert-bracket", "E2-delete-bracket", "E3-truncate-open", "E4-control-byte", "E4-control-byte-at-end", "E5-delete-semicolon"}).Draw(rt, "edit")
+		kind := rapid.SampledFrom([]string{"E1-insert-bracket", "E2-delete-bracket", "E3-truncate-open", "E4-control-byte", "E4-control-byte-at-end", "E5-delete-semicolon", "E6-nested-halt-compiler"}).Draw(rt, "edit")
 		var edited []byte
 		desc := ""
 		switch kind {
@@ -402,6 +402,45 @@ func TestGuaranteedInvalidEdits(t *testing.T) {
 			p := sc.Position
 			edited = append(append(append([]byte{}, src[:p.StartPos]...), ' '), src[p.EndPos:]...)
 			desc = fmt.Sprintf("deleted the ';' at offset %d between two expression statements (operand next to operand)", p.StartPos)
+		case "E6-nested-halt-compiler":
+			// "__halt_compiler();" as the first statement of a braced statement list (block, function / method /
+			// closure body, try / catch / finally, braced namespace). PHP's own grammar accepts the tokens there
+			// only to reject them ("__HALT_COMPILER() can only be used from the outermost scope"), and the text
+			// after it — the closing brace included — is never parsed: not a valid program under any reading.
+			var opens []*token.Token
+			astx.Walk(c.Root, func(n ast.Vertex, _ string) bool {
+				switch b := n.(type) {
+				case *ast.StmtStmtList:
+					opens = append(opens, b.OpenCurlyBracketTkn)
+				case *ast.StmtFunction:
+					opens = append(opens, b.OpenCurlyBracketTkn)
+				case *ast.ExprClosure:
+					opens = append(opens, b.OpenCurlyBracketTkn)
+				case *ast.StmtTry:
+					opens = append(opens, b.OpenCurlyBracketTkn)
+				case *ast.StmtCatch:
+					opens = append(opens, b.OpenCurlyBracketTkn)
+				case *ast.StmtFinally:
+					opens = append(opens, b.OpenCurlyBracketTkn)
+				case *ast.StmtNamespace:
+					opens = append(opens, b.OpenCurlyBracketTkn)
+				}
+				return true
+			})
+			var cands []*token.Token
+			for _, t := range opens {
+				if t != nil && t.Position != nil && !inStr[t] {
+					cands = append(cands, t)
+				}
+			}
+			if len(cands) == 0 {
+				return
+			}
+			t := cands[rapid.IntRange(0, len(cands)-1).Draw(rt, "block")]
+			at := t.Position.EndPos
+			hc := rapid.SampledFrom([]string{"__halt_compiler ( ) ;", "__HALT_COMPILER();", "__halt_compiler();"}).Draw(rt, "spelling")
+			edited = append(append(append([]byte{}, src[:at]...), []byte(" "+hc+" ")...), src[at:]...)
+			desc = fmt.Sprintf("inserted %q as the first statement of the braced statement list opened at offset %d", hc, t.Position.StartPos)
 		case "E4-control-byte-at-end":
 			// only when the file ends in PHP mode (not after a close tag / inline HTML / __halt_compiler data)
 			last := toks[sites[len(sites)-1]]
